@@ -73,7 +73,7 @@ def k7_part(ctx: vlib.Ctx):
             "Fixpoint leq (a b: list aidx) : bool := match a, b with [], [] => true | x :: r, y :: s => aidx_eqb x y && leq r s | _, _ => false end.\n")
     okf = "fun c => match arg_indexes (fst c), snd c with Some a, Some b => leq a b | None, None => true | _, _ => false end"
     bad, log = vlib.coq_bad_idx("c03_k7", "TupleIdx", "From VerifGen Require Import K7.", defs, cases, okf,
-                                "list bool * option (list aidx)", shard=1500, needs=["gen/K7.vo", "theories/TupleIdx.vo"])
+                                "list bool * option (list aidx)", shard=1500, timeout=tycorr.CORR_TIMEOUT, needs=["gen/K7.vo", "theories/TupleIdx.vo"])
     if bad is None:
         ctx.correspondence("K7-translation-vs-source-loop", len(cases), -1, log)
         ctx.not_shown("translation validation K7", log)
@@ -83,7 +83,7 @@ def k7_part(ctx: vlib.Ctx):
             ctx.not_shown("translation validation K7", str([flagsets[i] for i in bad[:5]]))
 
 
-def k45_part(ctx: vlib.Ctx):
+def k45_part(ctx: vlib.Ctx, validate: bool = False):
     """kernel K45 (emission of unpack_named_tuple): theorems + validation of the translation against the code the real
     generator produces for random NamedTuple classes in both forms (helper text captured at its exec, direct call read from
     the decoder's source)"""
@@ -93,9 +93,11 @@ def k45_part(ctx: vlib.Ctx):
     import mashumaro.core.meta.types.unpack as _unpack
     from mashumaro.codecs.basic import BasicDecoder
     from mashumaro.dialect import Dialect
-    ctx.theorems("props/C03_ntdict_kernel.vo", ["C03_named_code_is_model", "C03_ntdict_code_is_model"], kernels=["K45"])
-    ctx.trusted += ["tools/kernels/k45_namedtuple_emit.py (translator of the emission part of unpack_named_tuple: statement texts compared exactly, branch structure read "
+    if not validate:
+        ctx.theorems("props/C03_ntdict_kernel.vo", ["C03_named_code_is_model", "C03_ntdict_code_is_model"], kernels=["K45"])
+        ctx.trusted += ["tools/kernels/k45_namedtuple_emit.py (translator of the emission part of unpack_named_tuple: statement texts compared exactly, branch structure read "
                     "from the AST; validated each run against the code generated for random NamedTuple classes); NtEmit.v run_code = semantics of the emitted statements"]
+        return
     if not ctx.kernel_report.get("K45", {}).get("ok"):
         return
     rng = ctx.rng
@@ -174,7 +176,7 @@ def k45_part(ctx: vlib.Ctx):
            "leqb idx_eqb (k45_indices ad names) ix && "
            "code_eqb (k45_code ad (match dfl with [] => true | _ => false end) (fun n => str_mem n dfl) names) code end")
     bad, log = vlib.coq_bad_idx("c03_k45", "Core TyModel NtEmit", "From VerifGen Require Import K45.", defs, cases, okf,
-                                "((bool * list string) * list string) * (list nt_idx * nt_code)", shard=400, needs=["gen/K45.vo", "theories/NtEmit.vo"])
+                                "((bool * list string) * list string) * (list nt_idx * nt_code)", shard=400, timeout=tycorr.CORR_TIMEOUT, needs=["gen/K45.vo", "theories/NtEmit.vo"])
     if bad is None:
         ctx.correspondence("K45-translation-vs-generated-source", len(cases), -1, log)
         ctx.not_shown("translation validation K45", log)
@@ -347,16 +349,11 @@ def run(ctx: vlib.Ctx):
     ctx.theorems("props/C03_typed_kernel.vo", ["C03_typed_code_is_model"], kernels=["K45a"])
     ctx.trusted += ["tools/kernels/k45a_typeddict_emit.py (translator of the emission loops of pack_typed_dict / unpack_typed_dict; sorted(S, key=all_keys.index) rendered as "
                     "filter; validated each run against the helpers generated for random TypedDict classes); TdEmit.v run_td_lines = semantics of the emitted statements"]
-    tycorr.k45a_validate(ctx, "unpack")
     ctx.theorems("props/C03_typevar.vo", ["C03_optional_code_is_model", "C03_typevar_code_is_model", "C03_typevar_unpack_ref"], kernels=["K45c"])
     ctx.trusted += ["tools/kernels/k45c_optional_typevar.py (head of unpack_special_typing_primitive + expr_or_maybe_none: exact-shape check, tests abstracted to booleans)"]
     ctx.coqchk(["VerifProps.C03_unpack", "VerifProps.C03_tuple_kernel", "VerifProps.C03_ntdict", "VerifProps.C03_ntdict_kernel", "VerifProps.C03_typed_kernel", "VerifProps.C03_typevar"])
     cases, bad, log = tycorr.run(ctx, "c03_ty", ctx.budget(60, 400), 2, depth=3, foreign=4)
     hits = tyoracle.report_corr(ctx, "TyModel.uk/ref_dec vs BasicDecoder.decode", cases, bad, log, want="dec")
-    ncases, nbad, nlog = tycorr.run_nd(ctx, "c03_nd", ctx.budget(20, 150), foreign=3)
-    hits += tyoracle.report_corr(ctx, "TyNtDict.uk_nd/ref_dec_nd vs BasicDecoder.decode under an as_dict dialect", ncases, nbad, nlog, want="dec")
-    from harness.props import c01 as _c01
-    _c01.tv_part(ctx, "c03_tv", "dec", ctx.budget(15, 120))
 
     n = ctx.budget(800, 5000) if not hits else ctx.budget(2500, 10000)
     for fam, ns, t, ty, sg in tyoracle.schema_stream(ctx.rng, n, literals=True):
@@ -380,6 +377,13 @@ def run(ctx: vlib.Ctx):
         fam.dispose()
     indexed_part(ctx)
     as_dict_part(ctx)
+    # round-6 parts last: the random streams of the parts above stay what they were for every seed
+    k45_part(ctx, validate=True)
+    tycorr.k45a_validate(ctx, "unpack")
+    ncases, nbad, nlog = tycorr.run_nd(ctx, "c03_nd", ctx.budget(20, 150), foreign=3)
+    tyoracle.report_corr(ctx, "TyNtDict.uk_nd/ref_dec_nd vs BasicDecoder.decode under an as_dict dialect", ncases, nbad, nlog, want="dec")
+    from harness.props import c01 as _c01
+    _c01.tv_part(ctx, "c03_tv", "dec", ctx.budget(15, 120))
 
 
 def replay(rep: dict) -> int:
